@@ -19,7 +19,14 @@ from .core import frac
 # While an entry is listed its class is not generated; delete the entry and the generator produces it and the oracle reports it.
 # W-C03-1 (magnitude_counts() without bins on a region without bins / without region) was repaired in /repo by D41 (0529988) and
 # is generated since; its witnesses are corpus cases.
-AWAITING_DECISION = []
+AWAITING_DECISION = [
+    dict(id="W-C03-2", cls="retbins-aliases-region-bins",
+         what="magnitude_counts(retbins=True) hands out THE region's own magnitudes array (or the caller's own mag_bins object), not a "
+              "copy: `b, _ = cat.magnitude_counts(retbins=True); b[0] = 9.0` changes region.magnitudes for every catalog bound to that "
+              "region (the next region-bound spatial_magnitude_counts raises 'grid spacing must be positive'). Aliasing class (1) of "
+              "round 6: the session does overwrite every returned COUNT array; overwriting the returned BINS is not generated while "
+              "this entry is listed. Proposed patch: `return (numpy.array(mag_bins), out)` at both retbins returns of magnitude_counts."),
+]
 _AWAIT = {w["cls"] for w in AWAITING_DECISION}
 
 STATES = ["bins", "bins", "unset", "absent", "noregion"]
@@ -64,6 +71,17 @@ def gen_state_seq(rng, tier):
         region, _ = base.quad_region(rng, None)
         catlocs = [base.gen_events_quad(rng, region, n, frac_out) if n else [] for n in sizes]
         where = dict(kind="stateseq", rkind="quad", quadkeys=[str(k) for k in region.quadkeys])
+    # target positions for the caller's in-place coordinate edits: positions of other events, plus a few fresh ones (some outside)
+    if where["rkind"] == "cart":
+        extra_locs = base.gen_events_cart(rng, region, orc, 6, 0.34)
+        extra_locs = [p for p in extra_locs if not (orc.ax.allowed(p[0])[2] or orc.ay.allowed(p[1])[2])]
+        if orc.ax.n == 1:
+            extra_locs = [p for p in extra_locs if Fraction(p[0]) < orc.ax.top]
+        if orc.ay.n == 1:
+            extra_locs = [p for p in extra_locs if Fraction(p[1]) < orc.ay.top]
+    else:
+        extra_locs = base.gen_events_quad(rng, region, 6, 0.34)
+    move_pool = [tuple(p) for locs in catlocs for p in locs] + [tuple(p) for p in extra_locs]
     dflt = [float(x) for x in CSEP_MW_BINS]
     alledges = sorted(set(x for e in grids for x in e) | set(dflt))
 
@@ -87,7 +105,12 @@ def gen_state_seq(rng, tier):
             ops.append([rng.choice(["smc", "mc", "midx", "df"]), None, "list", dict(retbins=False, with_datetime=False), rng.randrange(2)])
         elif k < 0.2:
             ops.append(["edit", rng.randrange(2), rng.randrange(64), repr(one_mag())])
-        elif k < 0.27:
+        elif k < 0.33 and move_pool:
+            # the caller changes event COORDINATES in place: one element, a whole column, or through its own ndarray the catalog shares
+            tgt = rng.choice(move_pool)
+            ops.append(["move", rng.randrange(2), rng.randrange(64), rng.choice(["element", "column", "shared"]), repr(tgt[0]), repr(tgt[1])])
+            ops.append([rng.choice(["sc", "sep", "smc", "df", "smc"]), None, "list", dict(retbins=False, with_datetime=False), ops[-1][1]])
+        elif k < 0.40:
             g = rng.choice(grids)
             ops.append(["filter", rng.randrange(2), repr(rng.choice(g + [g[0] - 1.0, g[-1] + 50.0]))])
         else:
@@ -98,8 +121,8 @@ def gen_state_seq(rng, tier):
                 extra["tol"] = rng.choice([1e-9, 1e-12])
             if op == "df":
                 extra["with_datetime"] = rng.random() < 0.5
-            ops.append([op, g, rng.choice(["list", "ndarray"]), extra, rng.randrange(2)])
-    return dict(where, state=state, grids=[[repr(x) for x in e] for e in grids], ops=ops, catalogs=cats,
+            ops.append([op, g, rng.choice(["list", "ndarray", "tuple", "positional"]), extra, rng.randrange(2)])
+    return dict(where, from_ndarray=True, state=state, grids=[[repr(x) for x in e] for e in grids], ops=ops, catalogs=cats,
                 dup_times=rng.random() < 0.5)
 
 
@@ -107,10 +130,17 @@ def _enc_edges(e):
     return ",".join(frac(x) for x in e)
 
 
-def _session_cat(region, evs, dup_times):
+def _session_cat(region, evs, dup_times, from_ndarray=False, owned=None):
     from csep.core.catalogs import CSEPCatalog
     # events may share an origin time (duplicated labels of the datetime-indexed data frame)
     data = [(str(k), 1000 * (k // 3 if dup_times else k), float(lat), float(lon), 10.0, float(m)) for k, (lon, lat, m) in enumerate(evs)]
+    if from_ndarray:
+        arr = numpy.array(data, dtype=CSEPCatalog.dtype)        # the CALLER's array; the catalog may or may not share its memory
+        if owned is not None:
+            owned.append(arr)
+        return CSEPCatalog(data=arr, region=region)
+    if owned is not None:
+        owned.append(None)
     return CSEPCatalog(data=data, region=region)
 
 
@@ -172,7 +202,9 @@ def state_seq_case(run, drv, pending, case):
         region.magnitudes = None
         del region.magnitudes
     dup = bool(case.get("dup_times"))
-    catobjs = [_session_cat(None if state == "noregion" else region, evs, dup) for evs in cur]   # TWO catalogs, ONE region
+    owned = []
+    catobjs = [_session_cat(None if state == "noregion" else region, evs, dup, bool(case.get("from_ndarray")), owned)
+               for evs in cur]   # TWO catalogs, ONE region
     run.case(case if run.evaluations < 4 else None, ("stateseq", json.dumps(case, sort_keys=True, default=str)))
     run.count("stateseq:" + state)
 
@@ -220,6 +252,33 @@ def state_seq_case(run, drv, pending, case):
                 run.count("stateseq:caller-edits-events-in-place")
                 segments.append(None)
             continue
+        if op == "move":
+            ci, j, how, nlon, nlat = op_[1], op_[2], op_[3], float(op_[4]), float(op_[5])
+            if cur[ci]:
+                j %= len(cur[ci])
+                try:
+                    arr = catobjs[ci].catalog
+                    mine = owned[ci] if ci < len(owned) else None
+                    if how == "shared" and mine is not None and len(mine) == len(arr) and numpy.shares_memory(mine, arr):
+                        mine["longitude"][j] = nlon             # through the caller's own ndarray
+                        mine["latitude"][j] = nlat
+                        run.count("stateseq:caller-moves-event-through-its-shared-ndarray")
+                    elif how == "column":
+                        lo_, la_ = arr["longitude"].copy(), arr["latitude"].copy()
+                        lo_[j], la_[j] = nlon, nlat
+                        arr["longitude"] = lo_                  # whole-column assignment into the public structured array
+                        arr["latitude"] = la_
+                        run.count("stateseq:caller-assigns-coordinate-columns-in-place")
+                    else:
+                        arr["longitude"][j] = nlon
+                        arr["latitude"][j] = nlat
+                        run.count("stateseq:caller-moves-event-in-place")
+                except Exception as ex:
+                    fail(step, f"writing coordinates into the catalog's event array raised {type(ex).__name__}: {ex}")
+                    return
+                cur[ci][j] = (nlon, nlat, cur[ci][j][2])
+                segments.append(None)
+            continue
         if op == "filter":
             ci, thr = op_[1], float(op_[2])
             try:
@@ -241,7 +300,15 @@ def state_seq_case(run, drv, pending, case):
         anyout = any(c is None for c in cells_ev)
         kw = {}
         if g is not None:
-            kw["mag_bins"] = list(grids[g]) if how == "list" else numpy.array(grids[g])
+            kw["mag_bins"] = tuple(grids[g]) if how == "tuple" else (numpy.array(grids[g]) if how in ("ndarray", "positional")
+                                                                      else list(grids[g]))
+        arg_snapshot = None if g is None else [float(x) for x in kw["mag_bins"]]
+        pos = []
+        if how == "positional" and g is not None and op in ("smc", "mc"):
+            pos = [kw.pop("mag_bins")]                   # the bins as the first positional argument
+            run.count("stateseq:call-form:positional-bins")
+        elif how == "tuple" and g is not None:
+            run.count("stateseq:call-form:tuple-bins")
         if retbins:
             kw["retbins"] = True
         if "tol" in extra:
@@ -274,24 +341,31 @@ def state_seq_case(run, drv, pending, case):
         enc = {"mc": f"mc:{_enc_edges(grids[g]) if g is not None else 'none'}:{int(retbins)}",
                "smc": f"smc:{_enc_edges(grids[g]) if g is not None else 'none'}", "midx": "midx", "sc": "sc", "sep": "sep"}.get(op)
         # ---- the call (every access to the output is guarded: a deviation is an output, not a crash)
-        retb = None
+        retb = retb_raw = None
         try:
+            raw = None
             if op == "smc":
-                got = base._ints(cat.spatial_magnitude_counts(**kw))
+                raw = cat.spatial_magnitude_counts(*pos, **kw)
+                got = base._ints(raw)
             elif op == "mc":
-                r = cat.magnitude_counts(**kw)
+                r = cat.magnitude_counts(*pos, **kw)
                 if retbins:
                     if not (isinstance(r, tuple) and len(r) == 2):
                         fail(step, "magnitude_counts(retbins=True) did not return (bins, counts)")
                         return
+                    retb_raw = r[0]
                     retb, r = [float(x) for x in numpy.asarray(r[0], dtype=float).ravel()], r[1]
                 got = base._ints(r)
+                raw = r
             elif op == "midx":
-                got = base._ints(cat.get_mag_idx())
+                raw = cat.get_mag_idx()
+                got = base._ints(raw)
             elif op == "sc":
-                got = base._ints(cat.spatial_counts())
+                raw = cat.spatial_counts()
+                got = base._ints(raw)
             elif op == "sep":
-                got = base._ints(cat.spatial_event_probability())
+                raw = cat.spatial_event_probability()
+                got = base._ints(raw)
             else:
                 df = cat.to_dataframe(with_datetime=bool(extra.get("with_datetime")))
                 cols = list(df.columns)
@@ -314,6 +388,20 @@ def state_seq_case(run, drv, pending, case):
         except Exception as ex:      # a rejection; the exception class is not part of the property
             got = "E"
             run.count("stateseq:rejection-class:" + type(ex).__name__)
+        # ALIASING: the caller scribbles over the array it was handed (later calls must not notice), and the bins it passed are untouched
+        try:
+            if retbins and "retbins-aliases-region-bins" not in _AWAIT and isinstance(retb_raw, numpy.ndarray) and retb_raw.size:
+                retb_raw[...] = -1.0          # generated once W-C03-2 is decided: the returned bins overwritten by the caller
+            if isinstance(raw, numpy.ndarray) and raw.size and raw.flags.writeable:
+                raw[...] = -7
+                run.count("stateseq:caller-overwrites-returned-array")
+        except Exception:
+            pass
+        if arg_snapshot is not None:
+            passed = pos[0] if pos else kw.get("mag_bins")
+            if [float(x) for x in passed] != arg_snapshot:
+                fail(step, f"step {step} {op}: the magnitude bins passed by the caller were modified by the call")
+                return
         run.count(f"stateseq:{state}:{op}:{'explicit' if g is not None else 'bound'}")
         if "tol" in extra:
             run.count("stateseq:tol-argument")
@@ -410,6 +498,17 @@ def state_seq_case(run, drv, pending, case):
                 bound = dflt                # as the code is: the default bins are now bound to the region
                 default_used = True
                 segments.append(None)       # the model continues from the new state in a fresh segment (also checks the write)
+    # ---- the event arrays afterwards: exactly what the caller made them (gridding never writes into the catalog)
+    for ci, cobj in enumerate(catobjs):
+        try:
+            c_ = cobj.catalog
+            now = [(float(c_["longitude"][k]), float(c_["latitude"][k]), float(c_["magnitude"][k])) for k in range(len(c_))]
+        except Exception as ex:
+            fail(len(case["ops"]), f"reading the catalog's event array raised {type(ex).__name__}: {ex}")
+            return
+        if now != [tuple(map(float, e)) for e in cur[ci]]:
+            fail(len(case["ops"]), f"the event array of catalog {ci} was changed by the gridding calls of the session")
+            return
     # ---- the bins bound to the region afterwards
     try:
         has = hasattr(region, "magnitudes")
